@@ -781,7 +781,7 @@ def run_C13(ctx, rng, tier, res, known):
     res.samples.append(dict(case=lines[0][:300]))
     res.samples.append(dict(case=lines[-1]))
     if tier == "thorough":
-        miri_pass(ctx, res, [l for l in lines if len(l) < 6000][:80], ("std", "std+alloc"))
+        miri_pass(ctx, res, sorted([l for l in lines if len(l) < 4000], key=len)[-24:] + lines[-2:], ("std", "std+alloc"))
     return {}
 
 def history_predicate(ops, outs, cap):
